@@ -189,6 +189,24 @@ theorem typeCb_bool (number : Bool) (ts : List Nat) :
     · simp_all [notMatched]
     · simp_all [notMatched]
 
+/-- PREPARED for the fixed matchType (callback skips Missing first): that callback is exactly the
+    reference test `typeHolds`. After the model mirrors the fix, use this instead of `typeCb_bool` in
+    `matchType_unfold`; `typePred`, `typePred_typeHolds` and every `h10` hypothesis then go away. -/
+theorem typeCb_fixed_bool (number : Bool) (ts : List Nat) :
+    (fun field : V => if field.isMissing = true then notMatched
+        else if (number && field.cls == .number) = true then (Except.ok () : Res Unit)
+        else if ts.contains field.typ = true then .ok () else notMatched)
+      = boolOp (typeHolds number ts) := by
+  funext field
+  unfold boolOp typeHolds
+  by_cases h0 : field.isMissing = true
+  · simp [h0, notMatched]
+  · by_cases h1 : (number && field.cls == .number) = true
+    · simp_all [notMatched]
+    · by_cases h2 : ts.contains field.typ = true
+      · simp_all [notMatched]
+      · simp_all [notMatched]
+
 /-- LOCAL POINT of the known deviation D1: lungo tests `missing` like a null; as long as the type
     list does not name null this is invisible. (After a fix of matchType that skips Missing, the
     model's predicate IS `typeHolds` and the hypothesis disappears.) -/
